@@ -56,6 +56,7 @@ func runC17(c *Ctx) {
 	c17R4(c, p)
 	c17R5(c, p)
 	c17R6(c, p)
+	c17R7(c, p)
 	if c.Tier == "thorough" {
 		if t := c.need("tuner"); t != nil {
 			c17R1(c, t, "tuner")
